@@ -736,8 +736,9 @@ def run_property(ctx: Ctx, prop: str) -> int:
 
     # ---- design level: TLC judges the predicted site of every model of the family
     k = 2 if ctx.quick else 3
-    # quick: no optional feature, one, or all four together; thorough: every combination
-    FC = "{0, 1, 4}" if ctx.quick else "{0, 1, 2, 3, 4}"
+    # no optional feature, one, or all four together (thorough: the combinations of two and three features are
+    # enumerated too, with two privacies varied)
+    FC = "{0, 1, 4}"
     ctx.extra["model_switches_fixed"] = fixed_set()
     # quick: two privacies varied with the sidebar expanded (depth 3), at most one varied at depth 1 (the enumeration is the
     # dominant cost on a loaded machine); thorough: three varied at both depths
@@ -748,6 +749,12 @@ def run_property(ctx: Ctx, prop: str) -> int:
     recs = r.printed
     if ctx.quick:
         r1 = ctx.tlc("Site", CFG_ENUM.format(fc=FC, k=1, depths="{1}", fixed=fixed_set()), workers="auto", check=True, timeout=600)
+        if r1.violated:
+            r.violated.extend(r1.violated)
+        recs = recs + r1.printed
+    else:
+        r1 = ctx.tlc("Site", CFG_ENUM.format(fc="{2, 3}", k=2, depths="{1, 3}", fixed=fixed_set()), workers="auto", check=True,
+                     timeout=900, java_opts=["-Xmx8g"])
         if r1.violated:
             r.violated.extend(r1.violated)
         recs = recs + r1.printed
